@@ -157,8 +157,9 @@ def _xsd(bits):
         )
     return (
         '<xs:schema xmlns:xs="http://www.w3.org/2001/XMLSchema" targetNamespace="urn:t" xmlns="urn:t" elementFormDefault="qualified">'
-        '<xs:element name="root" type="A"/><xs:element name="other" type="C"/><xs:element name="seq" type="S"/>'
-        '<xs:complexType name="S"><xs:sequence maxOccurs="3"><xs:element name="k" type="xs:string"/><xs:choice><xs:element name="p" type="xs:int"/><xs:element name="q" type="xs:string"/><xs:element name="r" type="xs:token"/><xs:element name="t" type="xs:long"/></xs:choice></xs:sequence></xs:complexType>'
+        '<xs:element name="root" type="A"/><xs:element name="other" type="C"/><xs:element name="seq" type="S"/><xs:element name="seq2" type="S2"/>'
+        '<xs:complexType name="S"><xs:sequence maxOccurs="3"><xs:element name="k" type="xs:string"/><xs:choice><xs:element name="p" type="xs:int"/><xs:element name="q" type="xs:string"/></xs:choice></xs:sequence></xs:complexType>'
+        '<xs:complexType name="S2"><xs:choice maxOccurs="unbounded"><xs:element name="p2" type="xs:int"/><xs:element name="q2" type="xs:string"/><xs:element name="r" type="xs:token"/><xs:element name="t" type="xs:long"/></xs:choice></xs:complexType>'
         '<xs:element name="nest"><xs:complexType><xs:sequence><xs:element name="customer"><xs:complexType><xs:sequence><xs:element name="address"><xs:complexType><xs:sequence>'
         '<xs:element name="street" type="xs:string"/><xs:element name="geo"><xs:complexType><xs:attribute name="lat" type="xs:decimal"/></xs:complexType></xs:element>'
         '</xs:sequence></xs:complexType></xs:element></xs:sequence></xs:complexType></xs:element>'
